@@ -1684,8 +1684,17 @@ ssize_t __wrap_recv(int fd, void *buf, size_t cap, int flags)
         data_calls++;
     if (e->dead)
         return 0;
-    if (cap == 0)
-        return 0;        /* TCP answers a zero-length read with 0 at once */
+    if (cap == 0) {
+        /* a zero-length read on a TCP socket (checked on real loopback, conformance/conf.c): 0 when data is
+           queued or the peer has closed, EAGAIN when there is nothing to read */
+        int av = 0;
+        char pk;
+        ioctl(fd, FIONREAD, &av);
+        if (av > 0 || e->reset_pending || __real_recv(fd, &pk, 1, MSG_PEEK | MSG_DONTWAIT) == 0)
+            return 0;
+        errno = EAGAIN;
+        return -1;
+    }
     int f = data_fault(e, "recv", 0);
     if (f) {
         kill_fd(fd);
